@@ -3,6 +3,7 @@ package main
 import (
 	"context"
 	"fmt"
+	"io"
 	"os"
 	"path/filepath"
 	"strings"
@@ -12,12 +13,31 @@ import (
 
 	"github.com/blevesearch/bleve/v2"
 	"github.com/blevesearch/bleve/v2/index/scorch"
+	index "github.com/blevesearch/bleve_index_api"
 )
 
 func init() { props["c14"] = runC14 }
 
+type copyResLocal struct{ lines [][3]string }
+
+// a destination that is slow to hand out files (a network share): copies overlap each other and
+// persist / merge / purge rounds of the source
+type c14SlowDir struct {
+	bleve.FileSystemDirectory
+	r  *Rng
+	mu *sync.Mutex
+}
+
+func (d c14SlowDir) GetWriter(p string) (io.WriteCloser, error) {
+	d.mu.Lock()
+	ms := d.r.Intn(90)
+	d.mu.Unlock()
+	time.Sleep(time.Duration(ms) * time.Millisecond)
+	return d.FileSystemDirectory.GetWriter(p)
+}
+
 func runC14(t *Trace, r *Rng, tier string, _ []string) {
-	workloads, dur := 3, 900*time.Millisecond
+	workloads, dur := 4, 1500*time.Millisecond
 	if tier == "thorough" {
 		workloads, dur = 24, 2500*time.Millisecond
 	}
@@ -28,7 +48,7 @@ func runC14(t *Trace, r *Rng, tier string, _ []string) {
 	for wl := 0; wl < workloads; wl++ {
 		dir := filepath.Join(root, fmt.Sprintf("src%d", wl))
 		ci := r.Intn(12)
-		unsafeMode := wl%3 == 2
+		unsafeMode := wl%2 == 1
 		conf := c03Config(ci, unsafeMode)
 		cat := "safe"
 		if unsafeMode {
@@ -83,6 +103,9 @@ func runC14(t *Trace, r *Rng, tier string, _ []string) {
 					if rr.Chance(30) {
 						time.Sleep(time.Duration(rr.Intn(3)) * time.Millisecond)
 					}
+					if rr.Chance(6) { // a lull: the persister catches up and the purger gets its turn
+						time.Sleep(12 * time.Millisecond)
+					}
 				}
 			}(w)
 		}
@@ -94,7 +117,7 @@ func runC14(t *Trace, r *Rng, tier string, _ []string) {
 					select {
 					case <-stop:
 						return
-					case <-time.After(120 * time.Millisecond):
+					case <-time.After(45 * time.Millisecond):
 						ctx, cancel := context.WithTimeout(context.Background(), time.Second)
 						_ = sc.ForceMerge(ctx, nil)
 						cancel()
@@ -132,77 +155,97 @@ func runC14(t *Trace, r *Rng, tier string, _ []string) {
 				time.Sleep(2 * time.Millisecond)
 			}
 		}()
-		// the copier
+		// the copiers: three at a time, so that copies overlap each other
 		type copyRes struct{ lines [][3]string }
 		var cr copyRes
+		var crAll [][3]string
+		var crmu, rmu sync.Mutex
 		deadline := time.Now().Add(dur)
-		for cn := 0; time.Now().Before(deadline); cn++ {
-			time.Sleep(time.Duration(r.Intn(40)) * time.Millisecond)
-			dst := filepath.Join(root, fmt.Sprintf("copy%d-%d", wl, cn))
-			ack := make([]int, W)
-			for w := range ack {
-				ack[w] = int(atomic.LoadInt64(&acked[w]))
-			}
-			ic, ok := idx.(bleve.IndexCopyable)
-			if !ok {
-				cr.lines = append(cr.lines, [3]string{cat + "/copy-call", "echo ok", "index-not-copyable"})
-				break
-			}
-			if err := ic.CopyTo(bleve.FileSystemDirectory(dst)); err != nil {
-				cr.lines = append(cr.lines, [3]string{cat + "/copy-call", "echo ok", "copy-failed:" + oneLine(err.Error())})
-				continue
-			}
-			sub := make([]int, W)
-			for w := range sub {
-				sub[w] = int(atomic.LoadInt64(&submitted[w]))
-			}
-			copies++
-			cr.lines = append(cr.lines, [3]string{cat + "/copy-call", "echo ok", "ok"})
-			// the copy's own directory: one snapshot, exactly its files
-			recs, err := readRootBolt(dst)
-			line := "copydir"
-			if err != nil {
-				line += " unreadable"
-			}
-			for _, rc := range recs {
-				line += fmt.Sprintf(" %d:%s", rc.epoch, strings.Join(rc.files, ","))
-			}
-			line += " | " + strings.Join(c12ListZap(dst), " ")
-			cr.lines = append(cr.lines, [3]string{cat + "/copy-dir", line, "ok"})
-			cidx, err := bleve.Open(dst)
-			if err != nil {
-				cr.lines = append(cr.lines, [3]string{cat + "/copy-open", "echo ok", "open-failed:" + oneLine(err.Error())})
-				continue
-			}
-			cadv, _ := cidx.Advanced()
-			rd, err := cadv.Reader()
-			must(err)
-			docs, ints, count, err := c04Observe(rd, W, K)
-			rd.Close()
-			if err != nil {
-				cr.lines = append(cr.lines, [3]string{cat + "/copy-open", "echo ok", "read-failed:" + oneLine(err.Error())})
-			} else {
-				cr.lines = append(cr.lines, [3]string{cat + "/copy-content", c04Line(0, ack, docs, ints, count), "ok"})
-				// nothing from the future either: no batch that had not been submitted when CopyTo returned
-				fut := "ok"
-				for w := range ints {
-					if ints[w] > sub[w] {
-						fut = fmt.Sprintf("writer %d: copy holds batch %d, only %d submitted", w, ints[w], sub[w])
+		var cwg sync.WaitGroup
+		for cp := 0; cp < 5; cp++ {
+			cwg.Add(1)
+			go func(cp int) {
+				defer cwg.Done()
+				cr := &copyResLocal{}
+				defer func() { crmu.Lock(); crAll = append(crAll, cr.lines...); crmu.Unlock() }()
+				rr := NewRng(uint64(wl*31 + cp))
+				for cn := 0; time.Now().Before(deadline); cn++ {
+					time.Sleep(time.Duration(rr.Intn(40)) * time.Millisecond)
+					dst := filepath.Join(root, fmt.Sprintf("copy%d-%d-%d", wl, cp, cn))
+					ack := make([]int, W)
+					for w := range ack {
+						ack[w] = int(atomic.LoadInt64(&acked[w]))
 					}
+					ic, ok := idx.(bleve.IndexCopyable)
+					if !ok {
+						cr.lines = append(cr.lines, [3]string{cat + "/copy-call", "echo ok", "index-not-copyable"})
+						break
+					}
+					var dest index.Directory = bleve.FileSystemDirectory(dst)
+					if rr.Chance(60) {
+						dest = c14SlowDir{bleve.FileSystemDirectory(dst), NewRng(rr.U64()), &rmu}
+					}
+					if err := ic.CopyTo(dest); err != nil {
+						cr.lines = append(cr.lines, [3]string{cat + "/copy-call", "echo ok", "copy-failed:" + oneLine(err.Error())})
+						continue
+					}
+					sub := make([]int, W)
+					for w := range sub {
+						sub[w] = int(atomic.LoadInt64(&submitted[w]))
+					}
+					crmu.Lock()
+					copies++
+					crmu.Unlock()
+					cr.lines = append(cr.lines, [3]string{cat + "/copy-call", "echo ok", "ok"})
+					// the copy's own directory: one snapshot, exactly its files
+					recs, err := readRootBolt(dst)
+					line := "copydir"
+					if err != nil {
+						line += " unreadable"
+					}
+					for _, rc := range recs {
+						line += fmt.Sprintf(" %d:%s", rc.epoch, strings.Join(rc.files, ","))
+					}
+					line += " | " + strings.Join(c12ListZap(dst), " ")
+					cr.lines = append(cr.lines, [3]string{cat + "/copy-dir", line, "ok"})
+					cidx, err := bleve.Open(dst)
+					if err != nil {
+						cr.lines = append(cr.lines, [3]string{cat + "/copy-open", "echo ok", "open-failed:" + oneLine(err.Error())})
+						continue
+					}
+					cadv, _ := cidx.Advanced()
+					rd, err := cadv.Reader()
+					must(err)
+					docs, ints, count, err := c04Observe(rd, W, K)
+					rd.Close()
+					if err != nil {
+						cr.lines = append(cr.lines, [3]string{cat + "/copy-open", "echo ok", "read-failed:" + oneLine(err.Error())})
+					} else {
+						cr.lines = append(cr.lines, [3]string{cat + "/copy-content", c04Line(10+cp, ack, docs, ints, count), "ok"})
+						// nothing from the future either: no batch that had not been submitted when CopyTo returned
+						fut := "ok"
+						for w := range ints {
+							if ints[w] > sub[w] {
+								fut = fmt.Sprintf("writer %d: copy holds batch %d, only %d submitted", w, ints[w], sub[w])
+							}
+						}
+						cr.lines = append(cr.lines, [3]string{cat + "/copy-not-from-future", "echo ok", fut})
+					}
+					// the copy is an index in its own right: it accepts a write
+					if err := cidx.Index("extra", map[string]interface{}{"seq": 1.0}); err != nil {
+						cr.lines = append(cr.lines, [3]string{cat + "/copy-writable", "echo ok", "write-failed:" + oneLine(err.Error())})
+					} else {
+						cr.lines = append(cr.lines, [3]string{cat + "/copy-writable", "echo ok", "ok"})
+					}
+					cidx.Close()
+					os.RemoveAll(dst)
 				}
-				cr.lines = append(cr.lines, [3]string{cat + "/copy-not-from-future", "echo ok", fut})
-			}
-			// the copy is an index in its own right: it accepts a write
-			if err := cidx.Index("extra", map[string]interface{}{"seq": 1.0}); err != nil {
-				cr.lines = append(cr.lines, [3]string{cat + "/copy-writable", "echo ok", "write-failed:" + oneLine(err.Error())})
-			} else {
-				cr.lines = append(cr.lines, [3]string{cat + "/copy-writable", "echo ok", "ok"})
-			}
-			cidx.Close()
-			os.RemoveAll(dst)
+			}(cp)
 		}
+		cwg.Wait()
 		close(stop)
 		wg.Wait()
+		cr.lines = crAll
 		for _, l := range cr.lines {
 			t.Emit(l[0], true, l[1], l[2])
 		}
@@ -229,4 +272,9 @@ func runC14(t *Trace, r *Rng, tier string, _ []string) {
 		os.RemoveAll(dir)
 	}
 	t.Set("copies", copies)
+	scen := 40
+	if tier == "thorough" {
+		scen = 150
+	}
+	c14Scripted(t, r, root, scen)
 }
